@@ -22,8 +22,10 @@ NoEv == [ev |-> "none"]
 
 GInit == SInit /\ hist = <<>>
 GNext ==
-  \/ \E s \in Seqs : /\ IF alive THEN s = RefSeq /\ Refused < MaxRefused ELSE Count("start") - Refused < MaxStarts
+  \/ \E s \in Seqs : /\ IF alive THEN s = RefSeq ELSE Count("start") - Refused < MaxStarts
+                     /\ Count("start") - Refused >= 1 => Len(s) = 1       \* later runs: one-step sequences
                      /\ Start(s)
+                     /\ ~last'.ok => (s = RefSeq /\ Refused < MaxRefused)
                      /\ hist' = Append(hist, [seq |-> s] @@ Rec("start", NoEv))
   \/ /\ Count("stop") < MaxStops
      /\ Stop /\ hist' = Append(hist, Rec("stop", NoEv))
